@@ -92,16 +92,16 @@ class BranchingList:
             self._close_branch()
 
     def false_case(self):
-        """ Checks if case value is false
+        """ Checks if case value of any openned branch is false
         """
-        if not self.state:
-            return False
-        # count number of true cases
-        branch = self._get_branch_id()
-        num_true = sum([self.cases[c].value==True for c in self.branches[branch].cases])
-        # only first `true` case is valid
-        case = self._get_case_id()
-        return num_true!=1 or self.cases[case].value == False
+        for branch in self.state:
+            # count number of true cases
+            num_true = sum([self.cases[c].value==True for c in self.branches[branch].cases])
+            # only first `true` case is valid
+            case = self.branches[branch].cases[-1]
+            if num_true!=1 or self.cases[case].value == False:
+                return True
+        return False
         
     def solve_case(self, node):
         """ Manage condition nodes
